@@ -690,15 +690,18 @@ Section Batches.
   Variable apps : list N.
 
   Inductive bevent :=
-  | BUps (ups : list (frame * rxpacket * nat * N)) (sched : list nat) (fuel : nat)   (* uplinks handled at the same time *)
+  | BUps (ups : list (frame * rxpacket * nat * N)) (sched : list nat) (fuel : nat) (restart : bool)
+      (* uplinks handled at the same time, cut after fuel operations; then, if restart, the server is restarted
+         (the durable tables stay, the output buffer is lost: Steps.recover) *)
   | BSub (m : dmsg).                                                                   (* a message is queued *)
-  Definition handlers (ev : bevent) : nat := match ev with BUps ups _ _ => length ups | BSub _ => 0%nat end.
+  Definition handlers (ev : bevent) : nat := match ev with BUps ups _ _ _ => length ups | BSub _ => 0%nat end.
   Definition bev_ok (ev : bevent) : Prop :=
-    match ev with BUps ups _ _ => Forall (fun x => fcnt (fst (fst (fst x))) < 65535) ups | BSub _ => True end.
+    match ev with BUps ups _ _ _ => Forall (fun x => fcnt (fst (fst (fst x))) < 65535) ups | BSub _ => True end.
   Definition bstep (st : dstate) (ev : bevent) : dstate * list out :=
     match ev with
-    | BUps ups sched fuel =>
-      interleaveN apps sched fuel st (map (fun x => uplink_prog E D (fst (fst (fst x))) (snd (fst (fst x))) (snd (fst x)) (snd x)) ups) []
+    | BUps ups sched fuel restart =>
+      let res := interleaveN apps sched fuel st (map (fun x => uplink_prog E D (fst (fst (fst x))) (snd (fst (fst x))) (snd (fst x)) (snd x)) ups) [] in
+      ((if restart then recover (fst res) else fst res), snd res)
     | BSub m => (fst (l_create_downstream st m), [])
     end.
   Fixpoint brun (st : dstate) (evs : list bevent) : dstate * list out :=
@@ -718,11 +721,12 @@ Section Batches.
     { cbn [fst snd]. split; [exists r; split; [exact Hr|]; split; [apply same_session_refl | lia]|]. split; constructor. }
     inversion Hok as [|? ? Hev Ht]; subst.
     assert (Htot : total (ev :: t) = (handlers ev + total t)%nat) by reflexivity.
-    destruct ev as [ups sched fuel | m]; cbn [bstep handlers] in *.
+    destruct ev as [ups sched fuel restart | m]; cbn [bstep handlers] in *.
     - destruct ups as [|u ups'].
       + (* nobody to run *)
         assert (Hnil : interleaveN apps sched fuel st [] [] = (st, [])) by (destruct fuel; [reflexivity|]; cbn [interleaveN]; unfold choose; destruct (hd 0%nat sched); reflexivity).
-        cbn [map]. rewrite Hnil. cbn [fst snd app]. rewrite Htot. cbn [length Nat.add]. rewrite Htot in Hroom. cbn [length Nat.add] in Hroom. apply (IH st r G); auto.
+        cbn [map]. rewrite Hnil. cbn [fst snd app]. rewrite Htot. cbn [length Nat.add]. rewrite Htot in Hroom. cbn [length Nat.add] in Hroom.
+        destruct restart; [apply (IH (recover st) r G); auto; unfold fb_down, recover; cbn; exact I | apply (IH st r G); auto].
       + set (ups := u :: ups') in *.
         assert (HG : G < 65536) by (rewrite Htot in Hroom; unfold ups in Hroom; cbn [length] in Hroom; lia).
         assert (Hd' : d_fdn r = G) by (rewrite Hd; now apply N.mod_small).
@@ -732,7 +736,11 @@ Section Batches.
         set (res1 := interleaveN apps sched fuel st (map (fun x => uplink_prog E D (fst (fst (fst x))) (snd (fst (fst x))) (snd (fst x)) (snd x)) ups) []) in *.
         destruct P as [(r1 & G1 & F1 & R1 & S1 & U1 & D1 & L1 & B1 & C1) ND1].
         assert (Hroom2 : G1 + N.of_nat (total t) <= 65536) by (rewrite Htot in Hroom; lia).
-        destruct (IH (fst res1) r1 G1 R1 F1 D1 Hroom2 Ht) as ((r2 & R2 & S2 & U2) & ND2 & C2).
+        assert (IHr : (exists r2, ds_row (fst (brun (if restart then recover (fst res1) else fst res1) t)) = Some r2 /\ same_session r1 r2 /\ d_fup r1 <= d_fup r2) /\
+                      NoDup (counters (snd (brun (if restart then recover (fst res1) else fst res1) t))) /\
+                      Forall (fun x => G1 <= x < G1 + N.of_nat (total t)) (counters (snd (brun (if restart then recover (fst res1) else fst res1) t)))).
+        { destruct restart; [apply (IH (recover (fst res1)) r1 G1); auto; unfold fb_down, recover; cbn; exact I | apply (IH (fst res1) r1 G1); auto]. }
+        destruct IHr as ((r2 & R2 & S2 & U2) & ND2 & C2).
         cbn [fst snd]. split; [exists r2; split; [exact R2|]; split; [eapply same_session_trans; eassumption | lia]|].
         rewrite counters_app. split.
         * apply NoDup_app_disjoint; [exact ND1 | exact ND2|]. intros x H1 H2. rewrite Forall_forall in C1, C2.
